@@ -27,11 +27,13 @@ public:
 class PatternPredicate : public Predicate
 {
 public:
-  PatternPredicate(opentelemetry::nostd::string_view pattern) : reg_key_{pattern.data()} {}
+  PatternPredicate(opentelemetry::nostd::string_view pattern)
+      : reg_key_{pattern.data(), pattern.size()}
+  {}
   bool Match(opentelemetry::nostd::string_view str) const noexcept override
   {
 #if OPENTELEMETRY_HAVE_WORKING_REGEX
-    return std::regex_match(str.data(), reg_key_);
+    return std::regex_match(str.begin(), str.end(), reg_key_);
 #else
     // TBD - Support regex match for GCC4.8
     OTEL_INTERNAL_LOG_ERROR(
